@@ -1,6 +1,15 @@
 """Per-property metadata used by the runner (levels, explanations)."""
 
 PROPS = {
+    "C08": {
+        "level": "other",
+        "explanation": "clean-up half decided on all paths (protocol lock + re-validation guards dominate every "
+                       "removal, operands come from the report's own lists); scan shape: list provenance by path "
+                       "class, graph cut 'every directory entry is classified', polarity of the three hash lists, "
+                       "integrity verdict",
+        "not_decided": "set-equality of the reports with the true garbage for every crash state (needs the "
+                       "directory contents, i.e. execution)",
+    },
     "C04": {
         "level": "other",
         "explanation": "conformance to the intents protocol on all paths: must-held protocol lock at every intent "
